@@ -181,33 +181,31 @@ pub unsafe fn simd_prefix_search_avx2(
         let cmp_eq = _mm256_cmpeq_epi32(_mm256_set1_epi32(target_prefix as i32), batch);
         let eq_mask = _mm256_movemask_epi8(cmp_eq) as u32;
 
-        if lt_mask == 0xFFFFFFFF {
-            left = batch_start + AVX2_BATCH_SIZE;
-            continue;
-        } else if lt_mask == 0 {
-            right = batch_start;
-            continue;
+        // Slots are sorted by prefix: the lanes below the target come first, then the equal ones, then the greater ones.
+        // Only lanes strictly below may be cut off on the left and only lanes strictly above on the right; equal
+        // prefixes have to stay inside [left, right) for the full-key comparison that follows.
+        let num_lt = (lt_mask.trailing_ones() / 4) as usize;
+        let new_left = if num_lt > 0 { batch_start + num_lt } else { left };
+
+        let gt_mask = !(lt_mask | eq_mask);
+        let mut new_right = right;
+        if gt_mask != 0 {
+            let first_gt = (gt_mask.trailing_zeros() / 4) as usize;
+            if first_gt < AVX2_BATCH_SIZE {
+                new_right = batch_start + first_gt;
+            }
         }
 
-        let first_ge_idx = (lt_mask.trailing_ones() / 4) as usize;
-
-        if first_ge_idx > 0 {
-            left = batch_start + first_ge_idx - 1;
-        }
-        right = batch_start + first_ge_idx.min(7) + 1;
-
-        if eq_mask != 0 {
-            let first_eq_idx = (eq_mask.trailing_zeros() / 4) as usize;
-            let last_eq_idx = if eq_mask.leading_zeros() == 0 {
-                7
-            } else {
-                (31 - eq_mask.leading_zeros()) as usize / 4
-            };
-            left = left.min(batch_start + first_eq_idx);
-            right = right.max(batch_start + last_eq_idx + 1);
+        if new_left <= left && new_right >= right {
+            break;
         }
 
-        break;
+        left = new_left;
+        right = new_right;
+
+        if left >= right {
+            break;
+        }
     }
 
     (left, right, 0)
